@@ -139,7 +139,8 @@ Definition fields_list (fs : fields) : list field :=
 (* ------------------------------------------------------------------ *)
 (* plain types: those covered by the blanket impl
      impl<C: Clone + Serialize + DeserializeOwned, M> ConvertSaveload<M> for C  { type Data = Self; clone / identity }
-   tuples and arrays of plain types are plain (serde and std implement the three traits for them) *)
+   tuples and arrays of plain types are plain (serde and std implement the three traits for
+   tuples up to 16 elements and arrays up to 32; longer ones are outside the model) *)
 
 Fixpoint plain_ty (t : ty) : bool :=
   match t with
